@@ -108,14 +108,25 @@ def lint():
 
 
 def parse_assumptions(out):
-    """Returns (n_closed, axioms:set) from the output of compiling a Properties file."""
+    """Returns (n_closed, axioms:set) from the output of compiling a Properties file.
+    An `Axioms:` block lists one axiom per entry: the name starts in column 0, its type follows
+    on the same line (`name : type`) or on indented continuation lines (`  : type ...`)."""
     closed = out.count("Closed under the global context")
     axioms = set()
-    for blk in re.findall(r"Axioms:\n((?:.+\n?)+?)(?=\n\S|\Z|Closed|Axioms:)", out):
-        for line in blk.split("\n"):
-            m = re.match(r"^([A-Za-z_][\w.']*)\s*:", line)
-            if m:
-                axioms.add(m.group(1))
+    in_block = False
+    for line in out.split("\n"):
+        if line.startswith("Axioms:"):
+            in_block = True
+            continue
+        if not in_block:
+            continue
+        if line.startswith(" ") or line.startswith("\t") or line == "":
+            continue  # continuation of the previous entry
+        m = re.match(r"^([A-Za-z_][\w.']*)\s*(:|$)", line)
+        if m and not line.startswith("Closed under") and not line.startswith("COQC") and not line.startswith("make"):
+            axioms.add(m.group(1))
+        else:
+            in_block = False
     return closed, axioms
 
 
